@@ -23,7 +23,7 @@ InitIndex == \E s \in Seqs(AI, 0, L) :
   \/ \E i \in Range(s), j \in Range(s), f \in {"slice", "substr", "substr0", "substr1"} : x = Case(f, s, E, E, i, j, E, E)
 
 \* ---- padding: one-character pads of each width and multi-character pads ------------------------------------------
-Pads == {<<"b">>, <<"e2">>, <<"g4">>, <<"a", "b">>, <<"e2", "g4">>} \cup (IF Big THEN {<<"c3">>, <<"a", "e2", "b">>} ELSE {})
+Pads == {<<>>, <<"b">>, <<"e2">>, <<"g4">>, <<"a", "b">>, <<"e2", "g4">>} \cup (IF Big THEN {<<"c3">>, <<"a", "e2", "b">>} ELSE {})
 InitPad == \E s \in Seqs(AI, 0, L - 1) : \E i \in (-1)..(Len(s) + 5), t \in Pads, f \in {"leftpad", "rightpad"} :
              x = Case(f, s, t, E, i, 0, E, E)
 
